@@ -38,3 +38,30 @@ pub trait IterSeqExec: IterSeq {
 impl<T> IterSeqExec for [T] { fn iter_seq_exec(&self) -> Vec<&T> { self.iter().collect() } }
 #[verifier::external]
 impl<T> IterSeqExec for BTreeSet<T> { fn iter_seq_exec(&self) -> Vec<&T> { self.iter().collect() } }
+
+// std: HashSet::iter / HashMap::iter visit every element exactly once "in arbitrary order": some
+// duplicate-free sequence whose elements are exactly the collection's (axiom_hash_*_seq).
+impl<T, S> IterSeq for HashSet<T, S> {
+    type Item = T;
+    uninterp spec fn seq_view(&self) -> Seq<T>;
+}
+#[verifier::external_body]
+pub proof fn axiom_hashset_seq<T, S>(s: HashSet<T, S>)
+    ensures s.seq_view().no_duplicates(), s.seq_view().to_set() == s@,
+{}
+#[verifier::external]
+impl<T, S> IterSeqExec for HashSet<T, S> { fn iter_seq_exec(&self) -> Vec<&T> { self.iter().collect() } }
+
+pub uninterp spec fn map_seq_view<K, V, S>(m: HashMap<K, V, S>) -> Seq<(K, V)>;
+#[verifier::external_body]
+pub proof fn axiom_hashmap_seq<K, V, S>(m: HashMap<K, V, S>)
+    ensures
+        map_seq_view(m).map_values(|p: (K, V)| p.0).no_duplicates(),
+        forall|k: K, v: V| map_seq_view(m).contains((k, v)) <==> (m@.contains_key(k) && m@[k] == v),
+{}
+#[verifier::external_body]
+pub fn iter_seq_pairs<'a, K, V, S>(m: &'a HashMap<K, V, S>) -> (v: Vec<(&'a K, &'a V)>)
+    ensures
+        v@.len() == map_seq_view(*m).len(),
+        forall|i: int| 0 <= i < v@.len() ==> (*(#[trigger] v@[i]).0, *v@[i].1) == map_seq_view(*m)[i],
+{ unimplemented!() }
